@@ -922,13 +922,16 @@ class AnsiString:
             left_spaces = math.floor((num) / 2)
             right_spaces = num - left_spaces
             obj._s = fillchar * left_spaces + obj._s + fillchar * right_spaces
+            end_point = None
             if extend_formatting:
-                # Move the removal settings from previous end to new end (formats the right fillchars with same as last char)
-                if old_len in obj._fmts:
-                    obj._fmts[len(obj._s)] = obj._fmts.pop(old_len)
+                # Take the removal settings out of the previous end (formats the right fillchars with same as last char)
+                end_point = obj._fmts.pop(old_len, None)
             # Shift all indices except for the origin
             # (formats the left fillchars with same as first char when extend_formatting==True)
             obj._shift_settings_idx(left_spaces, extend_formatting)
+            if end_point is not None:
+                # Removal settings go to the new end; they must not be shifted on top of that
+                obj._fmts[len(obj._s)] = end_point
 
         return obj
 
